@@ -59,7 +59,13 @@ def run(pid):
     # 2b. (C07) recovered states: a few traced histories, every sampled crash image recovered by the real OpenStore and
     #     continued (writes, flush, GC cycles, reopen by rescan); the F-rules are evaluated on the projections of the
     #     continuation.  (C03 does this at length; here only failures of an F-rule are reported.)
-    if pid == "C07":
+    if pid == "C07" and rep.violations:
+        # the verdict is settled by the crash-free parts; recovering and continuing hundreds of images of a store whose files
+        # are already inconsistent (and confirming each failure on a second trace) only delays it - seen with seed C07-f,
+        # whose run was still confirming after 20 minutes
+        vlib.log("C07: recovered-state part skipped, the crash-free parts already report %d violations" % len(rep.violations))
+        rep.cov["recovered_state_part_skipped_because_the_verdict_was_settled"] = True
+    elif pid == "C07":
         import c03
         cs, rc = c03.scenarios_c03(rng, 24 if thorough else 6, 20, 400 if thorough else 70, False)
         rep.cov["transitions"] += rc.states
